@@ -30,6 +30,12 @@ type crashPlan struct {
 
 func crashConfigs(kind string) []aofCfg {
 	switch kind {
+	case "probe":
+		out := crashConfigs("")
+		for i := range out {
+			out[i].Probe = true
+		}
+		return out
 	case "db":
 		return []aofCfg{
 			{Txn: true, Resume: true, Pipeline: false, Count: 2, Bytes: 1 << 20, DbMode: "id"},
@@ -113,6 +119,8 @@ func crashPlans(check, tier string) []crashPlan {
 			{alpha, 2, crashConfigs(""), 1, 2, 1, []string{"s0"}, false},
 			{alpha, 1, crashConfigs(""), 2, 3, 1, nil, false},
 			{[]string{"we", "w2", "w1", "p"}, 2, crashConfigs(""), 0, 1, 1, []string{"s0"}, true},
+			// input.syncDelayTestKey configured: the probe is an ordinary stream item with extra handling
+			{[]string{"pr", "w1", "t1", "p"}, 2, crashConfigs("probe"), 1, 2, 1, []string{"s0"}, false},
 		}
 	case "C09":
 		alpha := []string{"t1", "t2", "t3", "ts", "w1", "s1"}
